@@ -513,6 +513,33 @@ func genC05(tier string, rng *Rng) []Case {
 			g.adv(1)
 			g.ops = append(g.ops, Op{Kind: "req", Req: req})
 		}
+		if rng.Chance(45, 100) {
+			// later: the stored answer (if any) has expired and the origin answers something else - a changed
+			// resource, an error, a 304 - which must reach the client whole, and once more from the cache or not
+			g.adv(int64(rng.Pick2([]int{61, 100, 4000})))
+			st2 := []int{200, 200, 200, 404, 500, 304, 301}[rng.Intn(7)]
+			body2 := "v2-" + bigBody(sizes[rng.Intn(len(sizes))])
+			if st2 == 304 {
+				body2 = ""
+			}
+			h2 := []KV{{"Content-Type", "text/plain"}}
+			if rng.Chance(70, 100) {
+				h2 = append(h2, KV{"Content-Length", fmt.Sprint(len(body2))})
+			}
+			if rng.Chance(60, 100) {
+				h2 = append(h2, KV{"Cache-Control", rng.Pick([]string{"max-age=60", "max-age=60", "no-store", "public"})})
+			}
+			if rng.Chance(30, 100) {
+				h2 = append(h2, KV{"Etag", "\"e2\""})
+			}
+			if st2 == 301 {
+				h2 = append(h2, KV{"Location", "http://elsewhere.test/next"})
+			}
+			g.script(Behaviour{Status: st2, Hdrs: h2, Body: body2})
+			g.ops = append(g.ops, Op{Kind: "req", Req: req})
+			g.adv(1)
+			g.ops = append(g.ops, Op{Kind: "req", Req: req})
+		}
 		out = append(out, mkCacheCase([]Rule{rule}, g.ops, nil))
 	}
 	// requests rrrouter must answer by itself
